@@ -350,6 +350,32 @@ class PipeGen:
         used = {g["var"] for g in self.s["groups"]}
         self.pool = [n for n in range(60, 400) if n not in used]
         rng.shuffle(self.pool)
+        self._paths, self._steps, self._psrc = {}, {}, {}
+
+    def paths(self, tid, lst, hops=2):
+        k = (tid, lst, hops)
+        if k not in self._paths:
+            self._paths[k] = all_paths(self.s, tid, lst, hops)
+        return self._paths[k]
+
+    def promise_sources(self, ctx, own):
+        """[(src, type)] of every object promise path readable from thread context ctx (the own promise excluded)."""
+        k = (ctx, own)
+        if k not in self._psrc:
+            s, out = self.s, []
+            for q in s["promises"]:
+                if q["id"] == own or q["id"] not in self.b.creator:
+                    continue
+                t = promise_type(s, ctx, q["id"], [])
+                if t is None:
+                    continue
+                out.append((("P", ("promise", q["id"]), []), t))
+                for p, _ in self.paths(q["type"][1], False):
+                    pt = promise_type(s, ctx, q["id"], p)
+                    if pt is not None:
+                        out.append((("P", ("promise", q["id"]), p), pt))
+            self._psrc[k] = out
+        return self._psrc[k]
 
     # ---- names: fresh, or (sometimes) a name declared in a scope that is not visible here
     def fresh_name(self, st, sc, ctx_names):
@@ -372,18 +398,7 @@ class PipeGen:
     # ---- sources readable in scope sc: [(src, type)]
     def sources(self, st, sc, ctx, own, with_paths=True):
         s = self.s
-        out = []
-        for q in s["promises"]:
-            if q["id"] == own or q["id"] not in self.b.creator:
-                continue
-            t = promise_type(s, ctx, q["id"], [])
-            if t is None:
-                continue
-            out.append((("P", ("promise", q["id"]), []), t))
-            for p, _ in all_paths(s, q["type"][1], False):
-                pt = promise_type(s, ctx, q["id"], p)
-                if pt is not None:
-                    out.append((("P", ("promise", q["id"]), p), pt))
+        out = list(self.promise_sources(ctx, own))
         names = {}
         for n, t in thread_vars(s, ctx).items():
             names[n] = t
@@ -392,21 +407,24 @@ class PipeGen:
         for n, t in names.items():
             out.append((("V", n, []), t))
             if with_paths and t[1] == "OBJECT" and t[2] is not None:
-                for p, pt in all_paths(s, t[2], t[0]):
+                for p, pt in self.paths(t[2], t[0]):
                     out.append((("V", n, p), pt))
         return out
 
     def steps_for(self, r):
         """[(step or step kind to be filled in, result type)] for a source of type r."""
+        if r in self._steps:
+            return self._steps[r]
         s = self.s
         out = [(None, r)]
+        self._steps[r] = out
         if r[0]:
             for op in AGG_OK.get(r[1], []):
                 out.append((("agg", None, op), agg_result(r, op)))
             out.append((("filter",), r))
             out.append((("sort",), r))
         if r[1] == "OBJECT" and r[2] is not None:
-            for p, f in all_paths(s, r[2], r[0]):
+            for p, f in self.paths(r[2], r[0]):
                 if f[0]:
                     for op in AGG_OK.get(f[1], []):
                         out.append((("agg", p, op), agg_result(f, op)))
@@ -419,7 +437,7 @@ class PipeGen:
         item_t = (False, r[1], r[2])
         items = [([], item_t)]
         if r[2] is not None:
-            items += all_paths(s, r[2], False)
+            items += self.paths(r[2], False)
         p1, t1 = rng.choice(items) if rng.random() < 0.8 else items[0]
         left = ("item", False, list(p1))
         ty1 = ty_str(t1)
@@ -462,7 +480,7 @@ class PipeGen:
             return ("filter", self.gen_clauses(st, sc, ctx, own, r, 1, rng.choice([1, 1, 2, 3])))
         if step == ("sort",):
             if r[1] == "OBJECT" and r[2] is not None:
-                keys = [p for p, t in all_paths(s, r[2], False, hops=1) if not t[0] and t[1] != "OBJECT"]
+                keys = [p for p, t in self.paths(r[2], False, 1) if not t[0] and t[1] != "OBJECT"]
                 rng.shuffle(keys)
                 return ("sort", [list(k) for k in keys[:rng.choice([1, 1, 2])]])
             return ("sort", [[]])
@@ -480,11 +498,17 @@ class PipeGen:
             L = e["type"]
             null = (not e["assigned"]) and e["null"]
             cands = []
+            allowed = {}
+            for pl_ in (False, True):
+                for it_ in ("STRING", "NUMERIC", "BOOLEAN", "OBJECT"):
+                    ms_ = [m for m in METHODS if combine(L, m, (pl_, it_, None), null)]
+                    if ms_:
+                        allowed[(pl_, it_)] = ms_
             for src, r in srcs:
                 for step, rt in self.steps_for(r):
                     if rt is None:
                         continue
-                    ms = [m for m in METHODS if combine(L, m, rt, null)]
+                    ms = allowed.get((rt[0], rt[1]))
                     if not ms:
                         continue
                     ok, nt = merge_obj(L, rt)
@@ -837,9 +861,9 @@ def coq_cases_file_p(scenarios, impl_accepts):
     lines.append(";\n".join("  (%s, %s)" % (to_coq_p(s), "true" if acc else "false") for s, acc in zip(scenarios, impl_accepts)))
     lines.append("].")
     lines.append("Fixpoint failing (i : nat) (l : list (pschema * bool)) : list nat :=")
-    lines.append("  match l with [] => [] | (s, b) :: r => (if Bool.eqb (conforms_p_kf default_value_table s) b then [] else [i]) ++ failing (S i) r end.")
+    lines.append("  match l with [] => [] | (s, b) :: r => (if Bool.eqb (if has_cycle (base s) then false else conforms_p_kf default_value_table s) b then [] else [i]) ++ failing (S i) r end.")
     lines.append("Fixpoint kfhits (i : nat) (l : list (pschema * bool)) : list nat :=")
-    lines.append("  match l with [] => [] | (s, b) :: r => (if Bool.eqb (conforms_p_kf default_value_table s) (conforms_p default_value_table s) then [] else [i]) ++ kfhits (S i) r end.")
+    lines.append("  match l with [] => [] | (s, b) :: r => (if has_cycle (base s) then [] else if Bool.eqb (conforms_p_kf default_value_table s) (conforms_p default_value_table s) then [] else [i]) ++ kfhits (S i) r end.")
     lines.append("Eval vm_compute in (failing 0 cases).")
     lines.append("Eval vm_compute in (kfhits 0 cases).")
     return "\n".join(lines) + "\n"
@@ -1362,6 +1386,8 @@ def p_index10_out_of_scope(rng, s, b):
         # read the loop variable of traversal 1 into a fresh variable of its type, declared in the reading traversal
         steps, final = replay(s, pl)
         lv = next(x for x in final.e if x["scope"] == (1,) and x["loop"])
+        if lv["name"] == tk["as"] or any(d["name"] == lv["name"] for d in tk["vars"]):
+            return None
         n = 950 + rng.randrange(40)
         ty = ty_str(lv["type"])
         if lv["type"][1] == "OBJECT":
@@ -1370,6 +1396,8 @@ def p_index10_out_of_scope(rng, s, b):
         tk["apply"].append({"src": ("V", lv["name"], []), "step": None, "method": "SET", "to": n})
         return "traversal >= 10 reads the loop variable of traversal 1"
     d = rng.choice([d for d in t1["vars"] if not d["type"].endswith("_LIST") and d["type"] != "OBJECT"])
+    if d["name"] == tk["as"] or any(x["name"] == d["name"] for x in tk["vars"]):
+        return None
     lit_src = {"STRING": "SStr", "NUMERIC": "SInt", "BOOLEAN": "SBool"}[d["type"]]
     n = 950 + rng.randrange(40)
     tk["vars"].append({"name": n, "type": d["type"], "init": lit_src})
@@ -1667,3 +1695,52 @@ def run_check(ctx, owners, n_valid, n_mut, families, rule, trusted, prop_files=(
     if not ok and not ctx.violations:
         kernel.obligation_violation(ctx, thms, log)
     return items
+
+
+# ---- structural rules of the model that neither property states (kept in the tie so that the model stays the code's)
+@M.mutator("C08")
+def p_structural_fault(rng, s, b):
+    pls = _pipes(rng, s, b)
+    if not pls:
+        return None
+    pl = rng.choice(pls)
+    kind = rng.choice(["no_output", "short_nest", "empty_filter", "dup_id", "dup_name", "missing_promise", "same_promise", "wrong_kind"])
+    if kind == "no_output":
+        pl["out"] = []
+        return "pipeline without outputs"
+    if kind in ("short_nest", "empty_filter"):
+        c = _pick_instr(rng, s, b, "app", lambda pl, ins, st, info: ins[2]["step"] is not None and ins[2]["step"][0] == "filter")
+        if c is None:
+            return None
+        a = c[1][2]
+        if kind == "empty_filter":
+            a["step"] = ("filter", [])
+            return "filter without clauses"
+        cl = a["step"][1]
+        cl.append(("nest", [cl[0]]))
+        return "nested filter query with a single clause"
+    if kind in ("dup_id", "dup_name", "same_promise"):
+        if len(pls) < 2:
+            return None
+        other = next(x for x in pls if x is not pl)
+        if kind == "dup_id":
+            pl["id"] = other["id"]
+            return "two pipelines with one id"
+        if kind == "dup_name":
+            pl["name"] = other["name"]
+            return "two pipelines with one name"
+        # a second pipeline on the same promise (copy: same variables, so both are well formed)
+        i = s["pipelines"].index(pl)
+        cp = copy.deepcopy(other)
+        cp["id"], cp["name"] = pl["id"], pl["name"]
+        s["pipelines"][i] = cp
+        return "two pipelines write one object promise"
+    if kind == "missing_promise":
+        pl["promise"] = ("promise", 900 + rng.randrange(50))
+        return "pipeline on an object promise that does not exist"
+    a = rng.choice(s["actions"])
+    pl["promise"] = ("action", a["id"])
+    return "pipeline whose object_promise is an action reference"
+
+
+M.FORCE_ID_SPELLING.add("p_structural_fault")
